@@ -166,6 +166,7 @@ def invariant_episode(mon, pid, cls, inv, kind, rng, max_ops=25, per_op=None):
     else:
         net = ops.new_net(cls)
     n_ops = rng.randint(1, max_ops)
+    held = (net.nodes, net.edges)  # views obtained before the edits report the same network
     for step in range(n_ops):
         if roundtrips and rng.random() < 0.04 and not inv(net):
             # the history continues on a pickled / deep-copied / copied network (a constructible start state like any other)
@@ -176,6 +177,7 @@ def invariant_episode(mon, pid, cls, inv, kind, rng, max_ops=25, per_op=None):
             net = _pickle.loads(_pickle.dumps(net)) if how == "pickle" else (_copy.deepcopy(net) if how == "deepcopy" else net.copy())
             hist.append(f"<net = {how}(net)>")
             mon.note(f"history-continues-on:{how}")
+            held = (net.nodes, net.edges)
         op = gen.gen(net)
         hist.append(repr(op))
         pre = snap.snap(net) if per_op else None
@@ -188,6 +190,12 @@ def invariant_episode(mon, pid, cls, inv, kind, rng, max_ops=25, per_op=None):
         mon.note("outcome:" + ("returned" if outcome == "returned" else "raised"))
         mon.note(f"op-outcome:{op.name}:{outcome}")
         bad = inv(net)
+        if not bad:
+            try:
+                if list(held[0]) != list(net.nodes) or list(held[1]) != list(net.edges):
+                    bad = ["view-obtained-before-the-edit-reports-another-network"]
+            except Exception as exc:
+                bad = [f"held-view-unobservable:{type(exc).__name__}"]
         mon.ev()
         if outcome != "returned":
             mon.note("post-raise-evaluations")
